@@ -2,7 +2,7 @@
    The layout is re-checked against the real header by replay/layout_check.cpp on every run. */
 #ifndef VF_STRING_H
 #define VF_STRING_H
-#include "base.h"
+#include "vf_base.h"
 #define ASL_STR_SPACE 16
 typedef struct String {
   int _size, _len;
